@@ -1,6 +1,7 @@
 import CppUModel.Base.Proto
 import CppUModel.Model.LeakDetector
 import CppUModel.Model.LeakDetectorReplay
+import CppUModel.Model.Misuse
 /-!
 Driver for C06: replays `h_c06` traces through the detector model and judges the implementation's
 observations with the property's specification oracle: a shadow of the outstanding blocks (size, allocating
@@ -37,6 +38,7 @@ structure Shadow where
   stage     : Nat := 0
   mrpBase   : Nat := 0                      -- registry index of the memory-report plugin's malloc allocator (new: +1, new[]: +2)
   saved     : Nat × Nat × Nat := (0, 1, 2)  -- the current allocators (new, new[], malloc) before the plugin's pre action
+  nullIdx   : Nat := 15                     -- registry index of the NullUnknownAllocator (from the setup lines)
 deriving Inhabited
 
 def guardByte (i : Nat) : UInt8 :=
@@ -71,8 +73,31 @@ def expected (sh : Shadow) (ai addr : Nat) : String :=
       else if !b.bad.isEmpty then "corruption"
       else "none"
 
+/-- the category names of the property statement, as the first line of the text -/
+def categoryText : String → Option String
+  | "nonallocated" => some "Deallocating non-allocated memory\n"
+  | "mismatch" => some "Allocation/deallocation type mismatch\n"
+  | "corruption" => some "Memory corruption (written out of bounds?)\n"
+  | _ => none
+
+/-- every report whose complete text was printed begins with the line that names its category -/
+def checkTexts (obs : List (List String)) : Except String Unit := do
+  let fails := obs.filter (fun l => l.head? == some "fail" || l.head? == some "failtext")
+  let rec go : List (List String) → Except String Unit
+    | ("fail" :: k :: _) :: ["failtext", h] :: rest => do
+      match categoryText k, Proto.unhex? h with
+      | some want, some bytes =>
+        let text := (String.fromUTF8? (ByteArray.mk bytes.toArray)).getD ""
+        if !text.startsWith want then throw s!"a `{k}` report does not begin with its category line"
+      | _, _ => pure ()
+      go rest
+    | _ :: rest => go rest
+    | [] => pure ()
+  go fails
+
 def checkVerdict (sh : Shadow) (ai addr : Nat) (obs : List (List String)) : Except String Unit := do
   if obs.any (· == ["fail", "lost"]) then return ()      -- the detector's text buffer was full: the text is C14's subject
+  checkTexts obs
   let want := expected sh ai addr
   let got := failKinds obs
   match got with
@@ -126,7 +151,29 @@ def specStep (sh : Shadow) (o : Proto.Op) : Except String Shadow := do
   if obs.any (fun l => l.take 2 == ["fail", "unparsed"]) then throw "failure text not understood"
   let nat (s : String) : Nat := s.toNat?.getD 0
   match o.op with
-  | ["setup"] => pure { sh with fams := families obs }
+  | ["setup"] =>
+    let fams := families obs
+    -- delete, delete[] and free are three families: the library's three default allocators must not share a family name
+    match fams.lookup 0, fams.lookup 1, fams.lookup 2 with
+    | some n, some a, some m =>
+      if n == a || n == m || a == m then
+        throw "the default new / new[] / malloc allocators are not three different families: a cross-family release cannot be told"
+    | _, _, _ => pure ()
+    let nullIdx := ((obs.find? (fun l => l.take 2 == ["special", "null"])).bind (fun l => l[2]? >>= String.toNat?)).getD 15
+    pure { sh with fams := fams, nullIdx := nullIdx }
+  | ["mlaalloc", ai, size, _, _] =>
+    match retOf obs with
+    | some r =>
+      if r == 0 then pure sh
+      else if (find sh r).isSome then throw s!"environment: the allocator returned the live address {r}"
+      else pure { sh with live := newBlk sh r (nat size) (nat ai) :: sh.live }
+    | none => throw "alloc: no result"
+  | ["mlafree", ai, addr, _, _] => release sh (nat ai) (nat addr) obs false
+  | ["nullfree", addr, _, _, _] => release sh sh.nullIdx (nat addr) obs false
+  | ["nullalloc", _, _, _, _] =>
+    if !(failKinds obs).isEmpty then throw "an allocation produced a report"
+    pure sh
+  | ["crashon", _] => pure sh
   | ["skip"] => pure sh
   | ["alloc", ai, size, _, _, _] =>
     match retOf obs with
@@ -246,5 +293,96 @@ def specAll (ops : List Proto.Op) : Option String :=
 
 end C06Spec
 
+namespace C06Model
+open LeakDetector LeakDetector.Misuse
+
+structure D6 where
+  d       : DState := {}
+  crashN  : Nat := 0          -- CrashOnAllocationAllocator::allocationToCrashOn_
+  crashId : Nat := 1000000    -- registry index of the crash allocator
+  nullId  : Nat := 1000000    -- registry index of the NullUnknownAllocator
+deriving Inhabited
+
+def tail2 (s : State) : List String := [totalsLine s, s!"allocnum {getCurrentAllocationNumber s}"]
+
+def kindOfName? : String → Option FailKind
+  | "nonallocated" => some .nonAllocated
+  | "mismatch" => some .mismatch
+  | "corruption" => some .corruption
+  | _ => none
+
+/-- after every `fail <kind> …` line of the model: the complete text the reporter receives (not for the stage release, whose
+    deallocation file is a build path, and not when the implementation's buffer was full) -/
+def withTexts : List String → List String
+  | [] => []
+  | l :: rest =>
+    match Proto.words l with
+    | ["fail", k, af, al, asz, hat, ff, fl, hft] =>
+      match kindOfName? k with
+      | some kind =>
+        if ff == "<stage>" then l :: withTexts rest
+        else
+          let t := failText (.fail kind af (al.toNat?.getD 0) (asz.toNat?.getD 0) (unhexStr hat) ff (fl.toNat?.getD 0) (unhexStr hft))
+          l :: (if t.utf8ByteSize > 900 then "failtext toolong" else s!"failtext {strHex t}") :: withTexts rest
+      | none => l :: withTexts rest
+    | _ => l :: withTexts rest
+
+def renderNull (evs : List Ev) : List String :=
+  (evs.filter (fun e => match e with | .nfree _ => false | _ => true)).map (renderEv 0 false)
+
+def stepRaw (x : D6) (op : List String) (obs : List (List String)) : D6 × List String :=
+  let viaBase : D6 × List String := let r := modelStep x.d op obs; ({ x with d := r.1 }, r.2)
+  match op with
+  | ["setup"] =>
+    let r := modelStep x.d op obs
+    let sp := obs.find? (fun l => l.head? == some "special")
+    let num (i : Nat) : Nat := ((sp.bind (fun l => l[i]?)).bind String.toNat?).getD 1000000
+    ({ d := r.1, crashN := 0, nullId := num 2, crashId := num 4 }, r.2 ++ (sp.map (fun l => [" ".intercalate l])).getD [])
+  | ["mlaalloc", ai, size, file, line] =>
+    match allocAt x.d ai, size.toNat?, line.toNat? with
+    | some e, some size, some line =>
+      let result := obsResult "ualloc" obs
+      let r := mlaAlloc e.alloc e.alloc.real x.d.st size file line result fillByte
+      ({ x with d := { x.d with st := r.1 } }, r.2.map (renderEv result false) ++ tail2 r.1)
+    | _, _, _ => (x, ["bad-op"])
+  | ["mlafree", ai, addr, file, line] =>
+    match allocAt x.d ai, addr.toNat?, line.toNat? with
+    | some e, some addr, some line =>
+      let r := mlaFree e.alloc e.alloc.real x.d.st addr file line
+      ({ x with d := { x.d with st := r.1 } }, r.2.map (renderEv 0 false) ++ tail2 r.1)
+    | _, _, _ => (x, ["bad-op"])
+  | ["nullfree", addr, file, line, sep] =>
+    match addr.toNat?, line.toNat? with
+    | some addr, some line =>
+      let a : Allocator := ((x.d.reg[x.nullId]?).map (·.alloc)).getD nullUnknownGen
+      let r0 := dealloc x.d.st a addr file line (sep == "1")
+      let r : State × List Ev := (r0.1, r0.2.filter (fun e => !isUfree e))
+      ({ x with d := { x.d with st := r.1 } }, renderNull r.2 ++ tail2 r.1)
+    | _, _ => (x, ["bad-op"])
+  | ["nullalloc", size, file, line, sep] =>
+    match size.toNat?, line.toNat? with
+    | some size, some line =>
+      let r := nullAcquire x.d.st size file line (sep == "1")
+      ({ x with d := { x.d with st := r.1 } }, r.2.map (renderEv 0 false) ++ tail2 r.1)
+    | _, _ => (x, ["bad-op"])
+  | ["crashon", n] => ({ x with crashN := n.toNat?.getD 0 }, tail2 x.d.st)
+  | ["gacq", form, _, _, _] =>
+    -- through a CrashOnAllocationAllocator every `alloc_memory` (the block, and the separate record of the malloc family)
+    -- first compares the global detector's allocation number with the chosen one
+    let a? := (acquireWrapperOf x.d.threadSafe form).map (fun w => x.d.cur.byGetter w.getter)
+    let hit := match a? with
+      | some a => a.actual.id == x.crashId && crashes x.d.st.seq x.crashN
+      | none => false
+    if hit then
+      (viaBase.1, viaBase.2.flatMap (fun l => if l.startsWith "ualloc " || l == "nalloc" then ["crashcall", l] else [l]))
+    else viaBase
+  | _ => viaBase
+
+def step (x : D6) (op : List String) (obs : List (List String)) : D6 × List String :=
+  let r := stepRaw x op obs
+  (r.1, withTexts r.2)
+
+end C06Model
+
 def main : IO Unit :=
-  Proto.driverMain { init := ({} : DState), step := modelStep, spec := C06Spec.specAll }
+  Proto.driverMain { init := ({} : C06Model.D6), step := C06Model.step, spec := C06Spec.specAll }
